@@ -121,8 +121,10 @@ CHECKS['C04'] = dict(
          'include- and exclude-event forms; getEvent policies reading a field, a by-value movable argument (taken by const& and BY VALUE) and a non-identity policy in the exclude-event form; user map; custom Callback; 3 threading policies) x seeded histories of '
          'append/prepend/insert/remove/hasAnyListener/ownsHandle/forEach/forEachIf per key over 5 keys (differing only in case/length, empty) interleaved with dispatches whose arguments are '
          'lvalues, const lvalues and temporaries; listeners consume whatever they receive as rvalues; every listener call is checked (which listener, order, argument fingerprints) online; '
-         'built with g++ AND clang++ (opposite argument evaluation orders); non-trivial = >=1 successful remove and >=1 dispatch reaching >=2 listeners; distinct = trace hash',
-    jobs=JS('drv_dispatch', 'asan', 'c04', 3600, 150000, MD, shards=4) + JS('drv_dispatch', 'clang-asan', 'c04', 3600, 150000, MD, seed_offset=1, shards=4),
+         'built with g++ AND clang++ (opposite argument evaluation orders); "the listeners currently registered for the event" is also exercised while other threads register listeners of other events and dispatch (the two dispatcher targets - hashed and ordered map - of the C03 concurrent histories, ThreadSanitizer build, with their traversal oracle); non-trivial = >=1 successful remove and >=1 dispatch reaching >=2 listeners; distinct = trace hash',
+    jobs=JS('drv_dispatch', 'asan', 'c04', 3600, 150000, MD, shards=4) + JS('drv_dispatch', 'clang-asan', 'c04', 3600, 150000, MD, seed_offset=1, shards=4)
+         + [J('drv_cblist_mt', 'tsan', '', 640, 12000, opts={'cfg': '2'}, seed_offset=2, shards=8, shards_thorough=16, label='lookup-mt-hashed'),
+            J('drv_cblist_mt', 'tsan', '', 640, 12000, opts={'cfg': '3'}, seed_offset=3, shards=8, shards_thorough=16, label='lookup-mt-ordered')],
     assumptions=['model M-disp', 'listeners of other keys are observed through the same sink: any call not expected by the dispatch frame is a violation'],
     technique='online differential monitor over a configuration product, two compilers with opposite argument evaluation order, consuming listeners, ASan+UBSan',
     level_text='Exploration: each configuration is run on thousands of histories under both compilers; a dispatch that reaches a wrong, missing or extra listener, or hands any listener an argument that '
@@ -137,11 +139,14 @@ CHECKS['C05'] = dict(
     rule='seeded single-threaded histories (50-200 ops) of enqueue/process/processOne/processIf/processUntil/peekEvent/takeEvent/dispatch(QueuedEvent)/'
          'clearEvents/emptyQueue/waitFor(0)/listener changes, DisableQueueNotify objects created and destroyed in any order (they must change nothing but waitFor), with operations issued from inside listeners and predicates (depth<=2), 10 queue configurations '
          '(int/std::string keys, by-value/by-reference/move-only payloads, include/exclude-event forms, getEvent policies incl. non-identity in the exclude form and by-value parameter with temporaries, ordered lists incl. a QueueList policy template with a defaulted second parameter, a payload type with alignof 16 whose address is checked wherever it is handed out); the model '
+         '"dispatched by a processing call exactly as dispatch would" includes the mixins of the policies: queues with MixinFilter (alone, and behind a vetoing mixin) run the C12 histories, in which every queued dispatch must pass the filters like a direct one; '
          'predicts the next callback (listener, predicate or return) and every real callback is compared with it; per-event state machine and payload '
          'ledger; argument types whose copy/move throws are inputs too: the queue families of the C09 fault enumeration check that an event whose enqueue failed is not in the queue and that no '
          'other event is lost, duplicated or destroyed twice; non-trivial = >=1 processing call with events and (>=1 re-queued event or >=1 nested operation); distinct = trace hash',
     jobs=JS('drv_queue', 'asan', 'c05', 2100, 100000, MQ, shards=4) + JS('drv_queue', 'plain', 'c05', 4200, 200000, MQ, seed_offset=1, shards=4)
-         + [J('drv_fault', 'asan17-fault', '', 540, 9000, defs=['-DVF_CFG_MASK=0x30'], seed_offset=2, shards=8, shards_thorough=8)],
+         + [J('drv_fault', 'asan17-fault', '', 540, 9000, defs=['-DVF_CFG_MASK=0x30'], seed_offset=2, shards=8, shards_thorough=8),
+            J('drv_filter', 'asan17', 'c12', 1500, 40000, defs=['-DVF_CFG_MASK=0x7'], opts={'cfg': '2'}, seed_offset=3, shards=4, shards_thorough=8, label='queued-as-dispatch-would-filter'),
+            J('drv_filter', 'asan17', 'c12', 1500, 40000, defs=['-DVF_CFG_MASK=0x38'], opts={'cfg': '4'}, seed_offset=4, shards=4, shards_thorough=8, label='queued-as-dispatch-would-veto-filter')],
     assumptions=['model M-queue + M-disp (DESIGN §4) is the specification', 'single-threaded; schedules are C06'],
     technique='online next-callback-expectation monitor over generated queue histories with re-entrant listeners/predicates; per-event exactly-once state machine; payload ledger; ASan+UBSan',
     level_text='Exploration: every listener call, predicate call and return of a processing call on the real queue is compared with what the sequential model expects next, so a lost, duplicated, '
@@ -289,9 +294,11 @@ CHECKS['C13'] = dict(
     level='exploration',
     rule='the C05 histories on queues with QueueList=OrderedQueueList (ascending keys; key%4 descending with many ties): model keeps the pending list '
          'stably sorted, re-queued events merged before newer equals; independent per-call monotonicity/stability check from the dispatch trace; '
+         'the "exactly once" part also for an enqueue that FAILS because the comparator throws (the ordered-queue family of the C09 fault enumeration: every comparison of every enqueue throws once; the event must then not be in the queue, the order of the others must be intact, and the history continues); '
          'non-trivial as C05; distinct = trace hash',
     jobs=[J('drv_queue', 'asan', 'c13', 2000, 100000, defs=['-DVF_CFG_MASK=0x818'], shards=8),
-          J('drv_queue', 'plain', 'c13', 4000, 200000, defs=['-DVF_CFG_MASK=0x818'], seed_offset=1, shards=8)],
+          J('drv_queue', 'plain', 'c13', 4000, 200000, defs=['-DVF_CFG_MASK=0x818'], seed_offset=1, shards=8),
+          J('drv_fault', 'asan17-fault', '', 600, 12000, defs=['-DVF_CFG_MASK=0x30'], opts={'kind': '5'}, seed_offset=2, shards=8, shards_thorough=16, label='throwing-comparator')],
     assumptions=['comparators used are strict weak orders'],
     technique='online next-callback-expectation monitor with ordered-pending model + trace-level monotonicity/stability oracle; ASan+UBSan',
     level_text='Exploration: as C05, on ordered queue lists, with heavy key duplication.',
